@@ -26,9 +26,19 @@ structure Setup (α : Type) where
   rows : List (GridTrack α)
   items : List (GItem α)
 
-/-- the children that generate boxes, as placement inputs (step 3) -/
+/-- the children that generate boxes and are not absolutely positioned, as inputs of the size estimate (step 3) -/
 def boxChildrenOf (childStyles : List (GridChildStyle α)) : List GridPlacement.Child :=
-  (childStyles.filter fun cs => !cs.base.isHidden).map fun cs => ⟨cs.gridRow, cs.gridColumn⟩
+  ((childStyles.filter fun cs => !cs.base.isHidden).filter fun cs => cs.base.position != .absolute).map fun cs =>
+    ⟨cs.gridRow, cs.gridColumn⟩
+
+omit [NumCast α] in
+theorem boxChildrenOf_cons (a : GridChildStyle α) (as : List (GridChildStyle α)) :
+    boxChildrenOf (a :: as) =
+      if (!a.base.isHidden && a.base.position != .absolute) = true then ⟨a.gridRow, a.gridColumn⟩ :: boxChildrenOf as
+      else boxChildrenOf as := by
+  unfold boxChildrenOf
+  cases h1 : a.base.isHidden <;> cases h2 : (a.base.position != Position.absolute) <;>
+    simp [List.filter_cons, h1, h2]
 
 /-- the in-flow children with their indices (step 4) -/
 def inFlowOf (childStyles : List (GridChildStyle α)) : List (Nat × GridPlacement.Child) :=
